@@ -200,6 +200,10 @@ impl TypeCheckRep {
     pub fn pred(&self) -> &Option<Rc<dyn Predicate>> { &self.pred }
     pub fn indirect(&self) -> IndirectSpec { self.indirect }
 
+    // whether the check carries no predicate (only then can an
+    // Any-typed check be skipped).
+    pub fn is_unconstrained(&self) -> bool { self.pred.is_none() }
+
     // make an indirect-allowed version of the check.
     pub fn allow_indirect(&self) -> Rc<Self> {
         Rc::new(Self {
@@ -803,7 +807,7 @@ pub fn check_type(
                     Ok(rep) => rep,
                     Err(err) => return Some(o.place(err)),
                 };
-                if let PDFType::Any = elem_rep.typ() {
+                if let (PDFType::Any, true) = (elem_rep.typ(), elem_rep.is_unconstrained()) {
                     result = check_predicate(&o, c.pred());
                     continue
                 }
@@ -855,7 +859,7 @@ pub fn check_type(
                             result = Some(o.place(TypeCheckError::ForbiddenKey(key)));
                             break
                         },
-                        (Some(_), _, PDFType::Any) => continue,
+                        (Some(_), _, PDFType::Any) if chk.is_unconstrained() => continue,
                         (Some(v), _, _) => chks.push((Rc::clone(v), Rc::clone(&ent.chk))),
                     }
                 }
@@ -888,7 +892,7 @@ pub fn check_type(
                                     result = Some(o.place(TypeCheckError::ForbiddenKey(key)));
                                     break
                                 },
-                                (Some(_), _, PDFType::Any) => continue,
+                                (Some(_), _, PDFType::Any) if chk.is_unconstrained() => continue,
                                 (Some(v), _, _) => chks.push((Rc::clone(v), Rc::clone(&s.chk))),
                             }
                         }
@@ -918,7 +922,7 @@ pub fn check_type(
                             let key = DictKey::new(ent.key.clone());
                             result = Some(o.place(TypeCheckError::ForbiddenKey(key)))
                         },
-                        (Some(_), _, PDFType::Any) => continue,
+                        (Some(_), _, PDFType::Any) if chk.is_unconstrained() => continue,
                         (Some(v), _, _) => chks.push((Rc::clone(v), Rc::clone(&ent.chk))),
                     }
                 }
